@@ -372,6 +372,8 @@ class Engine:
         if re.search(r'(^|::)f64::(<impl f64>::)?NEG_INFINITY$', t): return F_INF(-1)
         if re.search(r'(^|::)f64::(<impl f64>::)?NAN$', t): return F_NAN()
         if re.search(r'(^|::)f64::(<impl f64>::)?EPSILON$', t): return fconst(Fraction(2.220446049250313e-16))
+        if t == '<u32 as bitflags::Bits>::EMPTY': return 0
+        if t == '<u32 as bitflags::Bits>::ALL': return 0xFFFFFFFF
         if t.startswith('ZeroSized: '):
             ty = t[len('ZeroSized: '):]
             if ty.startswith('{closure@'): return Closure(ty, [])
@@ -382,7 +384,7 @@ class Engine:
         if t.startswith('b"'): return StrV(t[2:t.rindex('"')])
         if t in s.bodies.simple: return s.const(s.bodies.simple[t], st)
         if t in s.alias and s.alias[t] in s.bodies.simple: return s.const(s.bodies.simple[s.alias[t]], st)
-        if t in s.bodies:
+        if t in s.bodies and t not in s.bodies.ambiguous:
             if t not in s.const_cache:
                 cs = s.new_state(); cs.frames.append(Frame(s.bodies[t], 1))
                 outs = s.run(cs, 1, 0, None)
@@ -860,10 +862,22 @@ class Engine:
         g = strip_generics(f)
         if g in s.bodies: return g
         if g in s.alias: return s.alias[g]
-        m = re.match(r'^([\w:]+::)<impl [^>]*>::(\w+)$', func)
+        m = re.match(r'^([\w:]+::)<impl ([^>]*)>::(\w+)$', func)
         if m:
-            c = [n for n in s.bodies.keys() if n.startswith(m.group(1) + '<impl at') and n.endswith('::' + m.group(2))]
+            c = [n for n in s.bodies.keys() if n.startswith(m.group(1) + '<impl at') and n.endswith('::' + m.group(3))]
             if len(c) == 1: return c[0]
+            if len(c) > 1:
+                # several inherent impls in one module (macro generated): the implementing type is the receiver or the result type
+                ty = m.group(2).strip()
+                c2 = [n for n in c if s.impl_type_is(n, ty)]
+                if len(c2) == 1: return c2[0]
+        # associated constant of a type whose impl block is only known by its source span: module::Type::NAME
+        m = re.match(r'^((?:\w+::)+)(\w+)::(\w+)((?:::promoted\[\d+\])?)$', func)
+        if m and func not in s.bodies:
+            c = [n for n in s.bodies.keys() if n.startswith(m.group(1) + '<impl at') and n.endswith('::' + m.group(3))]
+            full = m.group(1) + m.group(2)
+            c = [n for n in c if s.impl_type_is(n, full)]
+            if len(c) == 1 and (c[0] + m.group(4) in s.bodies or c[0] + m.group(4) in s.bodies.simple): return c[0] + m.group(4)
         # <Type as Trait>::method[::nested item]
         m = re.match(r'^<(.+) as ([\w:]+)(?:<.*>)?>::(\w+)((?:::.+)?)$', g)
         if m:
@@ -872,7 +886,20 @@ class Engine:
             if k in s.alias:
                 cand = s.alias[k] + m.group(4)
                 if cand in s.bodies or cand in s.bodies.simple: return cand
+            # trait impls generated by a macro of another crate (their span is not in this repository): the unique body of that method name in the
+            # type's module (or its anonymous `_` child) whose receiver is exactly the type
+            if '::' in k[0]:
+                mod = k[0].rsplit('::', 1)[0] + '::'
+                c = [n for n in s.bodies.keys() if (n.startswith(mod + '<impl at') or n.startswith(mod + '_::<impl at')) and n.endswith('>::' + meth) and '/src/' in n]
+                c = [n for n in c if (s.bodies[n].nargs == 0 and len(c) == 1) or s.bodies[n].local_ty.get(1, '').replace('&mut ', '').replace('&', '').strip() == k[0]]
+                if len(c) == 1 and (c[0] + m.group(4) in s.bodies or c[0] + m.group(4) in s.bodies.simple): return c[0] + m.group(4)
         return f
+    def impl_type_is(s, n, ty):
+        """is body n a method/associated fn of type ty? (receiver type when it has one; otherwise the result type; a later parameter of the type also counts)"""
+        b = s.bodies[n]; clean = lambda t: t.replace('&mut ', '').replace('&', '').strip()
+        if b.nargs >= 1 and clean(b.local_ty.get(1, '')) == ty: return True
+        if b.nargs >= 1 and any(clean(b.local_ty.get(k, '')) == ty for k in range(2, b.nargs + 1)) and clean(b.local_ty.get(1, '')).split('::')[-1][:1].islower(): return True
+        return clean(b.local_ty.get(0, '')) == ty and not (b.nargs >= 1 and '::' in clean(b.local_ty.get(1, '')) and clean(b.local_ty.get(1, '')) != ty and clean(b.local_ty.get(1, '')).split('::')[0] == ty.split('::')[0])
     def call(s, st, fr, func, args):
         f = s.resolve_name(func)
         if s.trace_calls: print('  ' * len(st.frames), 'call', func[:140])
